@@ -46,6 +46,17 @@ def null_mask(pattern, n, rng):
 _WORDS = ["", "a", "b", "abc", "é", "日本", "\U0001F600", "x" * 17, "0.7", "True", "nan", "None", " sp ace ", "a/b=c"]
 
 
+def tz_of(t):
+    """zone of a colspec: a zone name (str, as before) or, added in wave 3, a FIXED offset given as data:
+    {"fixed_s": seconds} / {"fixed_us": microseconds} -> datetime.timezone"""
+    if isinstance(t, dict):
+        import datetime
+        if "fixed_us" in t:
+            return datetime.timezone(datetime.timedelta(microseconds=t["fixed_us"]))
+        return datetime.timezone(datetime.timedelta(seconds=t["fixed_s"]))
+    return t
+
+
 def col_values(cs, n):
     """-> pandas Series for a colspec."""
     rng = random.Random(cs["seed"])
@@ -101,7 +112,7 @@ def col_values(cs, n):
         vals[m] = np.datetime64("NaT")
         s = pd.Series(vals, name=name)
         if kind.startswith("dttz"):
-            s = s.dt.tz_localize("UTC").dt.tz_convert(cs.get("tz", "UTC"))
+            s = s.dt.tz_localize("UTC").dt.tz_convert(tz_of(cs.get("tz", "UTC")))
         return s
     if kind.startswith("td_"):
         unit = kind.split("_")[1]
